@@ -784,6 +784,11 @@ def handle (case impl : List String) : String :=
   | ["n2bin", "rspfile"] =>
     let want := "code=0 content=" ++ hexOfBytes (bytesOfString "-a  in1 in2 \"q\" $x")
     want ++ mons [("rspfileExact", " ".intercalate impl == want)]
+  | ["n2bin", "cli", _] =>
+    -- any command line: the outcome is n2's to choose (help text, a diagnostic, a build), but it is an
+    -- exit status of 0 or 1 and never a panic
+    let okCode := impl.head? == some "code=0" || impl.head? == some "code=1"
+    " ".intercalate impl ++ mons [("binNoPanic", impl.getLast? == some "panic=0" && okCode)]
   | ["n2bin", "diag", tag, _, _, _] =>
     -- what the binary must do with a string it cannot print as it stands: a diagnostic and exit
     -- status 1 where the manifest / command line is in error, the ordinary outcome otherwise;
